@@ -278,14 +278,18 @@ def run(ctx: Ctx):
         scases = corpus + [gen_sched_case(r2) for _ in range(1000 * scale)]
         run_sched(ctx, hb, scases, dist)
         # supporting exploration on the real engine (ASan build): a short storm in quick, long storms + TSan in thorough
-        storms = [("storm %d %d %d" % (rng.below(2 ** 31), 6 if quick else 150, 4))]
+        # `latch`: deterministic - the I/O thread is held inside a residual connect's onClose while another thread enqueues;
+        # `cstorm`: 4 threads call connect() in a tight loop racing stop(): every id returned ok must have got its onClose;
+        # `storm`: mixed operations (also records ok ids and requires their onClose)
+        storms = ["latch", "cstorm %d %d %d" % (rng.below(2 ** 31), 30 if quick else 300, 4),
+                  "storm %d %d %d" % (rng.below(2 ** 31), 6 if quick else 150, 4)]
         out, rc, err = ctx.run_lines([hb], storms, timeout=1500)
         storm_report(ctx, "asan", storms, out, rc, err, dist)
         if not quick:
             hb2 = ctx.build_harness("harness/c05_teardown.cpp", name="c05_teardown_tsan", sanitize=False,
                                     flags=["-fsanitize=thread"], defines=["TSYNC_NO_DETSCHED"])
             if hb2:
-                storms = [("storm %d %d %d" % (rng.below(2 ** 31), 100, 4))]
+                storms = ["cstorm %d %d %d" % (rng.below(2 ** 31), 100, 4), "storm %d %d %d" % (rng.below(2 ** 31), 100, 4)]
                 out, rc, err = ctx.run_lines([hb2], storms, timeout=3000, env={"TSAN_OPTIONS": "halt_on_error=1:exitcode=97"})
                 storm_report(ctx, "tsan", storms, out, rc, err, dist)
     ctx.extra["input_distribution"] = dist
@@ -310,13 +314,24 @@ def run(ctx: Ctx):
 
 
 def storm_report(ctx, tag, storms, out, rc, err, dist):
-    for l in out:
-        dist["storm-" + tag] = dist.get("storm-" + tag, 0) + 1
+    for op, l in zip(storms, out):
+        kind = op.split()[0]
+        dist[kind + "-" + tag] = dist.get(kind + "-" + tag, 0) + 1
         ctx.count_case(tag + l, nontrivial=True)
         ctx.cov["traces_validated_against_impl"] += 1
         f = dict(kv.split("=") for kv in l.split() if "=" in kv)
-        if f.get("bad", "0") != "0" or f.get("late", "0") != "0" or f.get("stuck", "0") != "0":
-            ctx.violation("property", "T4/T5: real-engine storm (%s build): %s" % (tag, l), {"ops": storms, "observed": out}, found_input=True)
+        if f.get("stranded", "0") != "0":
+            ctx.violation("property", "T4: real TcpEngine (%s build): connect() returned ok for an id that never got its onClose - a command was accepted "
+                          "into the queue after the shutdown drain had taken the residual commands (`%s` -> %s)" % (tag, op, l),
+                          {"ops": [op], "observed": [l], "note": "replay: feed the op line to the harness (real engine on loopback; the latch variant is deterministic)"},
+                          found_input=True)
+        elif kind == "latch" and (f.get("connectAccepted", "0") != "0" or f.get("sendAccepted", "0") != "0"):
+            ctx.violation("property", "T4: real TcpEngine (%s build): an enqueue issued while the shutdown drain was reporting its residual commands was "
+                          "accepted (%s)" % (tag, l), {"ops": [op], "observed": [l]}, found_input=True)
+        elif f.get("bad", "0") != "0" or f.get("late", "0") != "0" or f.get("stuck", "0") != "0":
+            ctx.violation("property", "T4/T5: real-engine storm (%s build): %s" % (tag, l), {"ops": [op], "observed": [l]}, found_input=True)
+        if kind == "latch" and f.get("window", "1") != "1":
+            ctx.notes.append("latch scenario did not reach its window (setup): %s" % l)
     if rc != 0 or len(out) < len(storms):
         why = "ThreadSanitizer: data race" if "ThreadSanitizer" in err else ("AddressSanitizer: " + err.split("ERROR: AddressSanitizer: ")[1].split()[0]) if "ERROR: AddressSanitizer: " in err else "rc=%s" % rc
         ctx.violation("property", "X: real-engine start/stop storm (%s build) aborted: %s" % (tag, why),
